@@ -38,7 +38,6 @@ import (
 )
 
 var (
-	rxPunctuation = regexp.MustCompile(`\s+([.?!,;])\s*(\S*)`)
 	rxTempNewline = regexp.MustCompile(`\s*\|\\/\|\s*`)
 	rxCSSComment  = regexp.MustCompile(`(?s)/\*.*?\*/`)
 
@@ -457,7 +456,6 @@ func InnerText(node *html.Node) string {
 	finder(node)
 	text := buffer.String()
 	text = strings.Join(strings.Fields(text), " ")
-	text = rxPunctuation.ReplaceAllString(text, "$1 $2")
 	text = rxTempNewline.ReplaceAllString(text, "\n")
 	return text
 }
